@@ -48,6 +48,8 @@ func classify(r *sctree.Runner, t *sctree.Tree) (bool, []string) {
 	add(r.Hits > 0, "has-hits")
 	add(r.MutatedAfterGet > 0, "caller-mutated-returned-value")
 	add(t.WideTxns > 0, "transaction-of-more-than-30-writes")
+	add(t.HugeTxns > 0, "transaction-of-more-than-1000-writes")
+	add(len(t.Blocks) > 256, "chain-of-more-than-256-blocks")
 	nt := (t.HasFork() || t.MultiDepthKey()) && r.AncestorThenDescendant
 	return nt, cls
 }
@@ -61,8 +63,14 @@ func TestNeverWrong(t *testing.T) {
 			// callers that modify in place what a lookup handed them (they own it) must not change any later answer
 			h = sctree.MutValHooks()
 		}
+		if ev.Known(memoEvictionFinding) {
+			h.MaxLookupBlocks = 80
+		}
 		r := sctree.NewRunner(rt, tree, h)
 		r.Run(gen.Uniform(rt, 10, 40+4*len(tree.Blocks), "nsteps"))
+		if r.CappedLookups > 0 {
+			ev.Excluded(memoEvictionFinding + ": in chains of more than 80 blocks, lookups happen at 80 of the blocks only (first ten, last fifty, twenty in between)")
+		}
 		nt, cls := classify(r, tree)
 		b, _ := json.Marshal(tree.Blocks)
 		ev.Case(string(b)+fmt.Sprint(r.Log), nt, cls...)
@@ -115,8 +123,46 @@ func evictionWitness() string {
 	return ""
 }
 
+// The same capacity, filled by remembered answers instead of writes: B0 sets k, B1 removes it, B2..B259 write nothing.
+// Lookups of k at B2..B259 (each remembered under that block in the key's 200-entry table), each preceded by a lookup
+// at B0 that keeps B0's entry fresh, push B1's removal marker out; a lookup at B1 then walks on to B0.
+const memoEvictionFinding = "C06-per-key-lru-eviction-by-remembered-answers"
+
+func memoEvictionWitness() string {
+	sc := statecache.NewStateCache()
+	commit := func(i int, w func(tc *statecache.TransactionCache)) {
+		prev := ""
+		if i > 0 {
+			prev = fmt.Sprintf("B%d", i-1)
+		}
+		bc := statecache.NewBlockCache(sc, statecache.Block{Round: int64(i), Hash: fmt.Sprintf("B%d", i), PrevHash: prev})
+		tc := statecache.NewTransactionCache(bc)
+		if w != nil {
+			w(tc)
+		}
+		tc.Commit()
+		bc.Commit()
+	}
+	commit(0, func(tc *statecache.TransactionCache) { tc.Set("k", statecache.String("v0")) })
+	commit(1, func(tc *statecache.TransactionCache) { tc.Remove("k") })
+	for i := 2; i < 260; i++ {
+		commit(i, nil)
+	}
+	for i := 2; i < 260; i++ {
+		sc.Get("k", "B0")
+		if v, ok := sc.Get("k", fmt.Sprintf("B%d", i)); ok {
+			return fmt.Sprintf("chain B0 (k=v0), B1 (k removed), B2..B259: lookup k@B%d hits %q, truth: removed", i, string(v.(statecache.String)))
+		}
+	}
+	if v, ok := sc.Get("k", "B1"); ok {
+		return fmt.Sprintf("chain B0 (k=v0), B1 (k removed), B2..B259 write nothing; lookups of k at B2..B259, each after a lookup at B0; then lookup k@B1 hits %q, truth: removed (B1's removal marker was pushed out of the key's 200-entry table by the answers remembered for the other blocks, B0's refreshed entry survived)", string(v.(statecache.String)))
+	}
+	return ""
+}
+
 func TestWitnesses(t *testing.T) {
 	ev.Witness(t, evictionFinding, evictionWitness)
+	ev.Witness(t, memoEvictionFinding, memoEvictionWitness)
 	ev.Witness(t, "C06-memoise-replaces-key-map", func() string {
 		sc := statecache.NewStateCache()
 		mk := func(h, prev string, w func(tc *statecache.TransactionCache)) {
